@@ -103,6 +103,7 @@ func (ups *Packet) ConnectPacket(manager cert.TlsConfig, mustSecure bool, connec
 	if err != nil {
 		return errors.Wrapf(err, "Could not open connection")
 	} else if mustSecure && !cc.Secure() {
+		streams.TryClose(cc)
 		return errors.Errorf("Could not establish a secure connection to %v", ups.Address)
 	} else {
 		stream = cc
